@@ -233,7 +233,13 @@ def check_choice_large(case):
 
 def check(case):
     if case['stage'] == 'inflight':
-        return check_inflight(case)
+        try:
+            return check_inflight(case)
+        except Violation:
+            raise
+        except Exception as e:
+            raise Violation('inflight-raised|' + '+'.join(case['derive']),
+                            f'{case}\nderiving / iterating a shuffled dataset raised {type(e).__name__}: {str(e)[:300]}')
     if case['stage'] == 'choice_large':
         return check_choice_large(case)
     stage, n, buf, sd = case['stage'], case['n'], case.get('buffer', 1), case['seed']
@@ -252,6 +258,11 @@ def check(case):
                                                   'reshuffle_apply', 'reshuffle_copy', 'tile_shuffle') else None
     try:
         ds, out_len = build(stage, n, buf, sd, extra)
+    except Exception as e:
+        # every generated configuration is valid (the unchanged library builds all of them): refusing one is a
+        # failure of the shuffling stage, not of the harness
+        raise Violation(f'build-raised|{stage}', f'{case}\nbuilding the shuffled dataset raised '
+                                                 f'{type(e).__name__}: {str(e)[:300]}')
     finally:
         none_at, NONE_AT[0] = NONE_AT[0], None
     desc = f'{case}'
